@@ -18,6 +18,9 @@ static int sm_compare(struct set *set, const void *a, const void *b)
     if (set->compare == set_compare_int) return set_compare_int(a, b);
     if (set->compare == set_compare_voidp) return set_compare_voidp(a, b);
     if (set->compare == set_compare_charp) return set_compare_charp(a, b);
+#ifdef SET_MODEL_EXTRA_CMP
+    if (set->compare == SET_MODEL_EXTRA_CMP) return SET_MODEL_EXTRA_CMP(a, b);
+#endif
     V_ASSERT(0, "set model: unknown comparator");
     return 0;
 }
